@@ -267,22 +267,11 @@ func c10(c *Ctx) {
 	}
 	if io := c.fn(pkgComposite, "IsOptionalFieldPathNotFound"); io != nil {
 		var allow []cfgx.Edge
-		for _, b := range io.Blocks {
-			for _, in := range b.Instrs {
-				bo, ok := in.(*ssa.BinOp)
-				if !ok || bo.Op != token.EQL {
-					continue
-				}
-				t, _ := cfgx.CondEdges(bo)
-				if cfgx.IsNilConst(bo.Y) || cfgx.IsNilConst(bo.X) {
-					allow = append(allow, t...)
-				}
-				for _, s := range []ssa.Value{bo.X, bo.Y} {
-					if v, ok := cfgx.ConstString(s); ok && v == "Optional" {
-						allow = append(allow, t...)
-					}
-				}
-			}
+		for _, cf := range findCmps(io, true, func(x, y ssa.Value) bool { return cfgx.IsNilConst(y) }) {
+			allow = append(allow, cf.Holds...)
+		}
+		for _, cf := range findCmps(io, true, func(x, y ssa.Value) bool { v, ok := cfgx.ConstString(y); return ok && v == "Optional" }) {
+			allow = append(allow, cf.Holds...)
 		}
 		n := 0
 		for _, b := range io.Blocks {
@@ -634,7 +623,7 @@ func c10derefs(c *Ctx, fn *ssa.Function) int {
 			if _, isPtr := ptrLoad.Type().Underlying().(*types.Pointer); !isPtr {
 				continue
 			}
-			rootV, p, _ := flow.AccessPath(ptrLoad)
+			rootV, p, _ := flow.AccessPathC(ptrLoad)
 			n++
 			c.R.Analysed(load.FuncName(fn))
 			name := load.FuncName(fn) + ": *" + p + " #" + itoa(n)
@@ -685,7 +674,7 @@ func nonNilEdgesOfPath(fn *ssa.Function, rootV ssa.Value, p string) []cfgx.Edge 
 			} else {
 				continue
 			}
-			r2, p2, ok2 := flow.AccessPath(other)
+			r2, p2, ok2 := flow.AccessPathC(other)
 			if !ok2 || p2 != p || flow.Root(r2) != flow.Root(rootV) {
 				continue
 			}
@@ -714,12 +703,12 @@ func derefOK(c *Ctx, fn *ssa.Function, use ssa.Instruction, ptrLoad *ssa.UnOp, r
 			if !ok {
 				continue
 			}
-			r2, p2, ok2 := flow.AccessPath(st.Addr)
+			r2, p2, ok2 := flow.AccessPathC(st.Addr)
 			if !ok2 || p2 != p || flow.Root(r2) != flow.Root(rootV) {
 				continue
 			}
 			// paths to the use either pass this store (value from a tested path) or a non-nil test
-			r3, p3, ok3 := flow.AccessPath(st.Val)
+			r3, p3, ok3 := flow.AccessPathC(st.Val)
 			if ok3 && st.Block().Dominates(use.Block()) == false {
 				gates := append(nonNilEdgesOfPath(fn, rootV, p), cfgx.Edge{})[:len(nonNilEdgesOfPath(fn, rootV, p))]
 				// the store happens on the nil edge of p: together with the non-nil edge all paths are covered
@@ -769,9 +758,9 @@ func validatedBefore(c *Ctx, fn *ssa.Function, use ssa.Instruction, rootV ssa.Va
 		}
 		// receiver must be the same struct
 		recv := x.Common().Args[0]
-		rr, rp, _ := flow.AccessPath(recv)
+		rr, rp, _ := flow.AccessPathC(recv)
 		if lr, ok := recv.(*ssa.UnOp); ok && lr.Op == token.MUL {
-			rr, rp, _ = flow.AccessPath(lr)
+			rr, rp, _ = flow.AccessPathC(lr)
 		}
 		if flow.Root(rr) != flow.Root(rootV) || rp != structPath {
 			// value receiver: Validate(*t) where t is the same alloc
@@ -823,7 +812,7 @@ func validatedBefore(c *Ctx, fn *ssa.Function, use ssa.Instruction, rootV ssa.Va
 				}
 				callers++
 				arg := x.Common().Args[prm]
-				ar, ap, _ := flow.AccessPath(arg)
+				ar, ap, _ := flow.AccessPathC(arg)
 				if ar == nil {
 					ar = arg
 				}
@@ -875,7 +864,7 @@ func validateRejectsNil(v *ssa.Function, field string) bool {
 			} else {
 				continue
 			}
-			_, p, ok2 := flow.AccessPath(other)
+			_, p, ok2 := flow.AccessPathC(other)
 			if !ok2 || !(p == field || strings.HasSuffix(p, "."+field)) {
 				continue
 			}
